@@ -5,6 +5,7 @@ Implement YAML document Merger.
 Copyright 2020, 2021 William W. Kimball, Jr. MBA MSIS
 """
 import sys
+from copy import deepcopy
 from os.path import basename
 from typing import Any, Dict, List, Optional, Set, Tuple, Union
 import json
@@ -887,6 +888,9 @@ class Merger:
             self.logger.debug(
                 "Replacing None data with:", prefix="Merger::merge_with:  ",
                 data=rhs, data_header="     *****")
+            # Adopt a copy:  the right-hand document may be merged into other
+            # documents later and must not change with this one.
+            rhs = deepcopy(rhs)
             self.data = Nodes.build_next_node(insert_at, 0, rhs)
             self.logger.debug(
                 "Merged document is now:", prefix="Merger::merge_with:  ",
